@@ -56,7 +56,7 @@ def build(seed):
             t = f"gt{sx}x{len(tlist)}"
             visible = [x for x in tlist if types[x]["mod"] == m or types[x]["mod"] in uses[m]]
             ext = rng.choice(visible) if visible and rng.random() < 0.5 else None
-            comps = [x for x in visible if rng.random() < 0.3 and x != ext]
+            comps = [x for x in visible if rng.random() < 0.3 and (x != ext or rng.random() < 0.5)]  # (also a component of the parent's type: two relations to one neighbour)
             types[t] = {"mod": m, "extends": ext, "comps": comps}
             tlist.append(t)
     # pointer components may name types declared later in the same module: cycles of composition, and of composition + extension
@@ -70,7 +70,7 @@ def build(seed):
     procs = {}  # name -> {"mod", "calls": set}
     plist = []
     for mi, m in enumerate(mods):
-        for k in range(rng.randint(1, 3)):
+        for k in range(rng.choice([1, 2, 3, 3, 4, 5])):
             p = f"gp{sx}x{len(plist)}"
             procs[p] = {"mod": m, "calls": set()}
             plist.append(p)
@@ -138,8 +138,34 @@ def build(seed):
         cand = [u for u in mods[:j] if u not in uses[m]]
         if cand and rng.random() < 0.3:
             iface_uses[m] = rng.choice(cand)
+    # private procedures under a display without `private`: they are not drawn; a call of one stands for the calls it makes
+    hidden = set()
+    if rng.random() < 0.4:
+        hidden = {p for p in plist if rng.random() < 0.4}
+        # nested private helpers shared by two callers: the first reaches the inner helper before the outer one, the second calls only the outer one
+        for m in mods:
+            mp = [p for p in plist if procs[p]["mod"] == m]
+            if len(mp) >= 4 and rng.random() < 0.7:
+                inner, outer, first, second = mp[0], mp[1], mp[2], mp[3]
+                hidden |= {inner, outer}
+                hidden -= {first, second}
+                procs[outer]["calls"].add(inner)
+                procs[first]["calls"] |= {inner, outer}
+                procs[second]["calls"].add(outer)
+                procs[second]["calls"].discard(inner)
+                vis = [q for q in plist if q not in (inner, outer, first, second) and (procs[q]["mod"] == m or procs[q]["mod"] in uses[m])]
+                if vis:
+                    procs[inner]["calls"].add(rng.choice(vis))
+        for p in plist:
+            procs[p]["calls"] = {q for q in procs[p]["calls"] if q not in hidden or procs[q]["mod"] == procs[p]["mod"]}  # private: callable in its module only
+        for n, d in internals.items():
+            d["calls"] = {q for q in d["calls"] if q not in hidden or procs[q]["mod"] == procs[d["host"]]["mod"]}
+        if prog:
+            prog["calls"] -= hidden
+        for p in hidden:
+            meta.pop(p, None)
     model = {"mods": mods, "uses": uses, "types": types, "procs": procs, "subs": subs, "prog": prog, "meta": meta, "filemap": filemap, "shape": shape,
-             "iface_uses": iface_uses, "internals": internals, "proc_internals": proc_internals}
+             "iface_uses": iface_uses, "internals": internals, "proc_internals": proc_internals, "hidden": hidden}
     return model
 
 
@@ -169,6 +195,9 @@ def render(model):
                 L.append(f"type({c}), pointer :: c{ci}_{c} => null()" if c in td.get("ptr", ()) else f"type({c}) :: c{ci}_{c}")
             L.append("integer :: payload")
             L.append(f"end type {t}")
+        for p in sorted(model.get("hidden", ())):
+            if model["procs"][p]["mod"] == m:
+                L.append(f"private :: {p}")
         if m in model.get("iface_uses", {}):
             L += ["interface", f"subroutine ext_{m}(x)", f"use {model['iface_uses'][m]}", "integer :: x", f"end subroutine ext_{m}", "end interface"]
         L.append("contains")
@@ -279,24 +308,39 @@ def expected_graphs(model, project_limits):
             type_edges.add((tid(t), tid(td["extends"])))
         for c in td["comps"]:
             type_edges.add((tid(t), tid(c)))
-    call_edges = set()
-    for p, pd in procs.items():
-        for q in pd["calls"]:
-            call_edges.add((pid(p), pid(q)))
-    internals = model.get("internals", {}) if model.get("proc_internals") else {}
+    hidden = set(model.get("hidden", ()))
     iid = lambda n: f"none~{n}"  # noqa: E731  (an internal procedure has no directory of its own)
-    for n, d in internals.items():
-        call_edges.add((pid(d["host"]), iid(n)))
-        for q in d["calls"]:
-            call_edges.add((iid(n), pid(q)))
-    if not model.get("proc_internals"):
-        # a call of a procedure that is not displayed is shown as a call of what that procedure calls
-        for n, d in model.get("internals", {}).items():
-            for q in d["calls"]:
-                call_edges.add((pid(d["host"]), pid(q)))
+    all_int = model.get("internals", {})
+    internals = all_int if model.get("proc_internals") else {}
+    # raw relation over every procedure, then: a call of a procedure that is not displayed (private under this display, internal without
+    # proc_internals) is shown as a call of what that procedure calls, transitively
+    raw = {}
+    for p, pd in procs.items():
+        raw[pid(p)] = {pid(q) for q in pd["calls"]} | {iid(n) for n, d in all_int.items() if d["host"] == p}
+    for n, d in all_int.items():
+        raw[iid(n)] = {pid(q) for q in d["calls"]}
     if prog:
-        for q in prog["calls"]:
-            call_edges.add((node_of[prog["name"]], pid(q)))
+        raw[node_of[prog["name"]]] = {pid(q) for q in prog["calls"]}
+    not_drawn = {pid(p) for p in hidden} | ({iid(n) for n in all_int} if not model.get("proc_internals") else {iid(n) for n, d in all_int.items() if d["host"] in hidden})
+
+    def shown_callees(a):
+        out_, stack, seen_ = set(), list(raw.get(a, ())), set()
+        while stack:
+            b = stack.pop()
+            if b in seen_:
+                continue
+            seen_.add(b)
+            if b in not_drawn:
+                stack += list(raw.get(b, ()))
+            else:
+                out_.add(b)
+        return out_
+
+    call_edges = set()
+    for a in raw:
+        if a not in not_drawn:
+            for b in shown_callees(a):
+                call_edges.add((a, b))
     exp = {}
     fwd_mod = use_edges | anc_edges | prog_use
 
@@ -323,6 +367,8 @@ def expected_graphs(model, project_limits):
         exp[f"{t}|inherits"] = ball(tid(t), out_edges(type_edges), d, n) + (ball(tid(t), out_edges(type_edges), 10**9, 10**9)[0],)
         exp[f"{t}|inheritedby"] = ball(tid(t), in_edges(type_edges), d, n) + (ball(tid(t), in_edges(type_edges), 10**9, 10**9)[0],)
     for p in procs:
+        if p in hidden:
+            continue  # no page, no graphs
         if not graph_on(p):
             exp[f"{p}|calls"] = None
             exp[f"{p}|calledby"] = None
@@ -345,11 +391,11 @@ def expected_graphs(model, project_limits):
     t_roots = {tid(t) for t in types if graph_on(t)}
     te = {(a, b) for (a, b) in type_edges if a in t_roots}
     exp["project|type"] = (t_roots | {b for (a, b) in te}, te, off)
-    c_roots = {pid(p) for p in procs if graph_on(p)}
+    c_roots = {pid(p) for p in procs if graph_on(p) and p not in hidden}
     if prog and prog["calls"]:
         c_roots.add(node_of[prog["name"]])
     c_roots |= {f"interface~ext_{m}" for m in model.get("iface_uses", {})}
-    c_roots |= {iid(n) for n, d in internals.items() if graph_on(d["host"])}  # (registered through their host) visible internal procedures are roots of the project call graph  # an interface body is a procedure of the project (no calls)
+    c_roots |= {iid(n) for n, d in internals.items() if graph_on(d["host"]) and d["host"] not in hidden}  # (registered through their host) visible internal procedures are roots of the project call graph  # an interface body is a procedure of the project (no calls)
     ce = {(a, b) for (a, b) in call_edges if a in c_roots}
     exp["project|call"] = (c_roots | {b for (a, b) in ce}, ce, off)
     # file graph
@@ -407,11 +453,31 @@ def run_case(item):
         return res
     G = res["graphs"]
 
+    out_dir = os.path.join(item["root"], "doc")
+    res["table_rows"] = []       # (graph key, rows shown, first-hop edges) for graphs rendered as tables
+    res["not_on_page"] = []      # graphs that are not empty but missing from the page of their entity
+    res["on_page_checked"] = 0
+
     def grab(key, obj, attr):
         g = getattr(obj, attr, None)
         res["has"][key] = g is not None and g != ""
         if g is not None and g != "" and hasattr(g, "dot"):
             G[key] = parse_dot(g)
+            try:
+                html = str(g)
+            except Exception:  # noqa: BLE001
+                html = ""
+            if '<table class="graph">' in html:
+                # table form (first hop too large to draw): one row per edge of the first hop
+                table = html[html.index('<table class="graph">'):html.index("</table>")]
+                res["table_rows"].append((key, table.count('class="node"'), len(getattr(g, "hop_edges", []))))
+            url = obj.get_url() if hasattr(obj, "get_url") else None
+            if html and url and "#" not in url and attr in ("usesgraph", "usedbygraph", "inhergraph", "inherbygraph", "callsgraph", "calledbygraph"):
+                page = os.path.join(out_dir, url)
+                if os.path.isfile(page):
+                    res["on_page_checked"] += 1
+                    if f'id="{type(g).__name__}-help-text"' not in open(page, encoding="utf-8", errors="replace").read():
+                        res["not_on_page"].append((key, url))
 
     for m in list(proj.modules) + list(proj.submodules):
         grab(f"{m.name.lower()}|uses", m, "usesgraph")
@@ -495,7 +561,7 @@ def case(seed):
             open(os.path.join(src, n), "w").write(t)
         proj_limits = (10000, 1000000000)
         opts = {"project": f"P{seed}", "src_dir": "./src", "output_dir": "./doc", "preprocess": False, "parallel": 0, "graph": True, "search": False,
-                "display": ["public", "private", "protected"], "proc_internals": bool(model.get("proc_internals")), "show_proc_parent": rng.random() < 0.5, "coloured_edges": rng.random() < 0.3, "quiet": True, "incl_src": True}
+                "display": ["public", "protected"] if model.get("hidden") else ["public", "private", "protected"], "proc_internals": bool(model.get("proc_internals")), "show_proc_parent": rng.random() < 0.5, "coloured_edges": rng.random() < 0.3, "quiet": True, "incl_src": True}
         if rng.random() < 0.3:
             opts["graph_maxdepth"] = rng.choice([1, 2, 3])
             proj_limits = (opts["graph_maxdepth"], proj_limits[1])
@@ -600,8 +666,13 @@ def case(seed):
             report({"kind": "project_graph_differs_from_relation", "graph": "file"}, {"expected_edges": sorted(fe), "observed_edges(dependent->dependency)": sorted(oe)})
     for b in r["adjacency_violations"][:5]:
         report({"kind": "inverse_adjacency_inconsistent", "relation": b[0]}, {"pair": b})
+    for key, rows, nedge in r.get("table_rows", []):
+        if rows != nedge:
+            report({"kind": "graph_table_rows_differ_from_first_hop_edges", "graph": key.split("|")[1]}, {"graph": key, "rows": rows, "first_hop_edges": nedge})
+    for key, url in r.get("not_on_page", [])[:5]:
+        report({"kind": "graph_missing_from_the_page_of_its_entity", "graph": key.split("|")[1]}, {"graph": key, "page": url})
     nontrivial = max((len(v[1]) for k, v in exp.items() if isinstance(v, tuple) and len(v) == 4), default=0) >= 3
-    return {"viol": viol, "ngraphs": ngraphs, "nedges": nedges, "cfg": cfg, "nontrivial": nontrivial, "hash": core.h([files, cfg]), "adj": r.get("adjacency_checked", 0),
+    return {"viol": viol, "ngraphs": ngraphs, "nedges": nedges, "cfg": cfg, "nontrivial": nontrivial, "hash": core.h([files, cfg]), "adj": r.get("adjacency_checked", 0), "ntables": len(r.get("table_rows", [])), "nonpage": r.get("on_page_checked", 0),
             "sample": {"seed": seed, "shape": model["shape"], "modules": model["mods"], "uses": {k: sorted(v) for k, v in model["uses"].items()},
                        "graphs_compared": ngraphs, "example_graph": {k: v for k, v in list(G.items())[:1]}}}
 
@@ -640,6 +711,8 @@ def main():
         run.count("graphs_compared", r["ngraphs"])
         run.count("expected_edges", r["nedges"])
         run.count("inverse_adjacency_pairs_checked", r["adj"])
+        run.count("graphs_rendered_as_tables_checked", r.get("ntables", 0))
+        run.count("graphs_looked_up_on_their_pages", r.get("nonpage", 0))
         run.seen("shapes", r["cfg"]["shape"])
         for v in r["viol"]:
             run.violation(v["kf"], v["w"])
